@@ -76,6 +76,10 @@ func oracleC17(c *props.Case) props.Verdict {
 	classes := []string{"c17:" + sc.Family + ":" + sc.Front + ":" + sc.Verb}
 	if o.FaultAt >= 0 {
 		classes = append(classes, "c17:fault:"+o.Lines[o.FaultAt].Class)
+		if fl := o.Lines[o.FaultAt]; (sc.Family == "panos" || sc.Family == "nsx") && fl.Res == "fault:close" &&
+			(strings.Contains(fl.Text, "type=keygen") || strings.Contains(fl.Text, "/api/session/create")) {
+			classes = append(classes, "c17:"+sc.Family+":transport-error-at-login")
+		}
 	}
 	return props.PassV(nt, classes...)
 }
